@@ -16,6 +16,7 @@ EXTENDS Integers, Sequences, FiniteSets, TLC
 
 CONSTANTS NWriters,      \* writers are processes 1..NWriters, the finaliser is process 0
           Mode, Recheck,
+          FirstUse,      \* local mode: TRUE = first use in the process (_state holds no lock yet), FALSE = a lock is already stored
           TrackSched,    \* record the schedule in the state (enumerates interleavings) or not (state space only)
           CellMap        \* name of the worker -> object-copy assignment (see Cell)
 
@@ -29,20 +30,27 @@ Cells == {Cell(p) : p \in Procs}
 
 VARIABLES pc,        \* process -> label
           uid,       \* cell -> uploadId of that copy (0 is "")
-          lock,      \* 0 free, else holder + 1 (the local lock or the distributed lock)
+          lock,      \* lock id -> 0 free, else holder + 1.  Id 0 is the distributed lock, p + 1 the Lock() process p created,
+                     \* NWriters + 2 a process-local lock stored before the run
+          ltab,      \* _state["mpu_lock"]: 0 = not there, else the id of the stored lock
+          mylk,      \* process -> id of the lock object _mpu_local_lock() handed it (0: none yet)
           var,       \* distributed Variable (0 is None)
           tmp,       \* process -> local variable holding an upload id
           nextId, created, parts, completed, failed,
           sched      \* history: the schedule, a sequence of <<process, kind of operation>>
-vars == <<pc, uid, lock, var, tmp, nextId, created, parts, completed, failed, sched>>
+vars == <<pc, uid, lock, ltab, mylk, var, tmp, nextId, created, parts, completed, failed, sched>>
+LockIds == 0..(NWriters + 2)
+LockId(p) == IF Mode = "local" THEN mylk[p] ELSE 0
 
 Init == /\ pc = [p \in Procs |-> IF p = 0 THEN "wait" ELSE "chk"]
-        /\ uid = [c \in Cells |-> 0] /\ lock = 0 /\ var = 0 /\ tmp = [p \in Procs |-> 0]
+        /\ uid = [c \in Cells |-> 0] /\ lock = [i \in LockIds |-> 0] /\ var = 0 /\ tmp = [p \in Procs |-> 0]
+        /\ ltab = (IF FirstUse THEN 0 ELSE NWriters + 2) /\ mylk = [p \in Procs |-> 0]
         /\ nextId = 1 /\ created = {} /\ parts = {} /\ completed = {} /\ failed = {} /\ sched = <<>>
 
 \* the kind of operation a label performs, as the replay harness sees it at its seams
 Kind(l) == CASE l \in {"chk", "rechk", "ini_assert", "read_share", "post_assert", "wp_assert", "wp_arg", "fin_assert", "fin_arg"} -> "get"
              [] l \in {"cli", "fin_cli"} -> "cli"
+             [] l = "lk_get" -> "sget" [] l = "lk_sd" -> "ssd"
              [] l \in {"acq", "acq_d"} -> "acq"
              [] l \in {"rel", "rel_fail", "rel_ret"} -> "rel"
              [] l \in {"set", "adopt1", "adopt2"} -> "set"
@@ -57,8 +65,17 @@ Fail(p) == failed' = failed \cup {p}
 After(p) == IF p = 0 THEN "fin_assert" ELSE "wp_assert"
 
 (* one step of process p; the disjunct taken is determined by pc[p] *)
+LkUpdate(p) == CASE pc[p] = "lk_get" -> mylk' = [mylk EXCEPT ![p] = ltab] /\ UNCHANGED ltab
+                 [] pc[p] = "lk_sd" -> ltab' = (IF ltab = 0 THEN p + 1 ELSE ltab) /\ mylk' = [mylk EXCEPT ![p] = ltab']
+                 [] OTHER -> UNCHANGED <<ltab, mylk>>
+\* where a process can block
+Guard(p) == CASE pc[p] \in {"acq", "acq_d"} -> lock[LockId(p)] = 0
+              [] pc[p] = "wait" -> (\A w \in Writers : pc[w] = "done") /\ failed = {}
+              [] pc[p] = "done" -> FALSE
+              [] OTHER -> TRUE
 Step(p) ==
   LET c == Cell(p) IN
+  /\ LkUpdate(p)
   /\ sched' = IF TrackSched THEN Append(sched, <<p, Kind(pc[p])>>) ELSE sched
   /\ CASE pc[p] = "wait" ->                      \* the finalise task runs after every write task (data dependency)
             /\ \A w \in Writers : pc[w] = "done"
@@ -68,11 +85,18 @@ Step(p) ==
             /\ Goto(p, IF uid[c] # 0 THEN After(p) ELSE "cli")
             /\ UNCHANGED <<uid, lock, var, tmp, nextId, created, parts, completed, failed>>
        [] pc[p] = "cli" ->                       \* client = _dask_client()
-            /\ Goto(p, IF Mode = "local" THEN "acq" ELSE "get1")
+            /\ Goto(p, IF Mode = "local" THEN "lk_get" ELSE "get1")
+            /\ UNCHANGED <<uid, lock, var, tmp, nextId, created, parts, completed, failed>>
+       (* ---- _mpu_local_lock(): lck = _state.get(k); if None: _state.setdefault(k, Lock())  (the lock table: see LkUpdate) ---- *)
+       [] pc[p] = "lk_get" ->
+            /\ Goto(p, IF ltab # 0 THEN "acq" ELSE "lk_sd")
+            /\ UNCHANGED <<uid, lock, var, tmp, nextId, created, parts, completed, failed>>
+       [] pc[p] = "lk_sd" ->                     \* setdefault is atomic: stores the new Lock() only if still absent, returns what is stored
+            /\ Goto(p, "acq")
             /\ UNCHANGED <<uid, lock, var, tmp, nextId, created, parts, completed, failed>>
        (* ---- local path ---- *)
        [] pc[p] = "acq" ->                       \* with _mpu_local_lock():
-            /\ lock = 0 /\ lock' = p + 1
+            /\ lock[LockId(p)] = 0 /\ lock' = [lock EXCEPT ![LockId(p)] = p + 1]
             /\ Goto(p, IF Recheck THEN "rechk" ELSE "ini_assert")
             /\ UNCHANGED <<uid, var, tmp, nextId, created, parts, completed, failed>>
        [] pc[p] = "rechk" ->                     \* (fix) if not mpu.started:
@@ -90,10 +114,10 @@ Step(p) ==
             /\ Goto(p, IF Mode = "local" THEN "rel" ELSE "read_share")
             /\ UNCHANGED <<lock, var, tmp, nextId, created, parts, completed, failed>>
        [] pc[p] = "rel" ->                       \* leaving the with block
-            /\ lock' = 0 /\ Goto(p, IF Mode = "local" THEN After(p) ELSE "post_assert")
+            /\ lock' = [lock EXCEPT ![LockId(p)] = 0] /\ Goto(p, IF Mode = "local" THEN After(p) ELSE "post_assert")
             /\ UNCHANGED <<uid, var, tmp, nextId, created, parts, completed, failed>>
        [] pc[p] = "rel_fail" ->                  \* AssertionError propagates out of the with block
-            /\ lock' = 0 /\ Fail(p) /\ Goto(p, "done")
+            /\ lock' = [lock EXCEPT ![LockId(p)] = 0] /\ Fail(p) /\ Goto(p, "done")
             /\ UNCHANGED <<uid, var, tmp, nextId, created, parts, completed>>
        (* ---- distributed path ---- *)
        [] pc[p] = "get1" ->                      \* uploadId = _safe_get(shared_state)
@@ -104,7 +128,7 @@ Step(p) ==
             /\ uid' = [uid EXCEPT ![c] = tmp[p]] /\ Goto(p, After(p))
             /\ UNCHANGED <<lock, var, tmp, nextId, created, parts, completed, failed>>
        [] pc[p] = "acq_d" ->                     \* with DLock(...):
-            /\ lock = 0 /\ lock' = p + 1 /\ Goto(p, "get2")
+            /\ lock[LockId(p)] = 0 /\ lock' = [lock EXCEPT ![LockId(p)] = p + 1] /\ Goto(p, "get2")
             /\ UNCHANGED <<uid, var, tmp, nextId, created, parts, completed, failed>>
        [] pc[p] = "get2" ->                      \* uploadId = _safe_get(shared_state)  (under the lock)
             /\ tmp' = [tmp EXCEPT ![p] = var]
@@ -114,7 +138,7 @@ Step(p) ==
             /\ uid' = [uid EXCEPT ![c] = tmp[p]] /\ Goto(p, "rel_ret")
             /\ UNCHANGED <<lock, var, tmp, nextId, created, parts, completed, failed>>
        [] pc[p] = "rel_ret" ->
-            /\ lock' = 0 /\ Goto(p, After(p))
+            /\ lock' = [lock EXCEPT ![LockId(p)] = 0] /\ Goto(p, After(p))
             /\ UNCHANGED <<uid, var, tmp, nextId, created, parts, completed, failed>>
        [] pc[p] = "read_share" ->                \* shared_state.set(mpu.uploadId): read the attribute
             /\ tmp' = [tmp EXCEPT ![p] = uid[c]] /\ Goto(p, "share")
@@ -166,6 +190,9 @@ NoWriterFails == failed = {}
 PartsUnderTheOneId == \A x \in parts : x[2] \in created /\ \A y \in parts : x[2] = y[2]
 FinaliseUnderTheOneId == completed \subseteq created /\ \A x \in parts : completed \subseteq {x[2]}
 CompleteAtEnd == AllDone => (Cardinality(created) = 1 /\ completed = created /\ {x[1] : x \in parts} = Writers)
-LockFreeAtEnd == Terminal => lock = 0
+LockFreeAtEnd == Terminal => \A i \in LockIds : lock[i] = 0
+\* the process-local lock is one object: whoever asks gets the stored one, and only one is ever stored
+OneLocalLock == Mode = "local" => \A p, q \in Procs : (mylk[p] # 0 /\ mylk[q] # 0 /\ pc[p] # "lk_sd" /\ pc[q] # "lk_sd") => mylk[p] = mylk[q]
+GuardIsEnabled == \A p \in Procs : Guard(p) <=> ENABLED Step(p)
 EventuallyDone == <>Terminal
 =============================================================================
